@@ -570,8 +570,9 @@ fn record_splits(args: &[String]) {
         let ev = if *hist { "hist" } else { "split" };
         let dead = |why: String| {
             let none = json!({"ok": false, "out": "", "exit": -9, "diags": [], "lints": [], "died": why.chars().take(300).collect::<String>()});
+            let shared = if *hist { splits::hist_shared_structs(seed, *i) } else { Vec::new() };
             json!({"ev": ev, "prog": i, "seed": seed, "died": why, "single": none, "runs": [], "alone": none, "after": none,
-                   "linked": none, "decls": [], "imports": [], "closed": false, "nmods": 0}).to_string()
+                   "linked": none, "decls": [], "imports": [], "closed": false, "nmods": 0, "shared_structs": shared}).to_string()
         };
         let args: Vec<String> = if *hist {
             vec!["hist-one".to_string(), seed.to_string(), i.to_string()]
